@@ -2,6 +2,7 @@ import Sylvia.Model.Inter
 import Sylvia.Model.Lex
 import Sylvia.Model.Casing
 import Sylvia.Driver.Util
+import Sylvia.Driver.Ops
 /-! `svmodel`: one operation per input line, one canonical line of output per operation.
 The same operation files are fed to the Rust harnesses; the streams are diffed by ./check. -/
 open Driver
@@ -29,14 +30,15 @@ def handle (line : String) : String :=
   | "case" => opCase rest
   | _ => "bad-op " ++ op
 
-partial def loop (h : IO.FS.Stream) (out : IO.FS.Stream) : IO Unit := do
+partial def loop (h : IO.FS.Stream) (out : IO.FS.Stream) (st : State) : IO Unit := do
   let line ← h.getLine
   if line.isEmpty then return ()
   let l := if line.endsWith "\n" then (line.dropEnd 1).toString else line
-  out.putStrLn (handle l)
-  loop h out
+  match step st l with
+  | (st', some r) => out.putStrLn r; loop h out st'
+  | (st', none) => out.putStrLn (handle l); loop h out st'
 
 def main : IO Unit := do
   let out ← IO.getStdout
-  loop (← IO.getStdin) out
+  loop (← IO.getStdin) out {}
   out.flush
